@@ -1,3 +1,4 @@
 //! Independent reference models, written from the standards' text.
 pub mod round;
 pub mod esr;
+pub mod mnemonic;
